@@ -165,7 +165,8 @@ def _shape_from_counts(ctx: Context, fi, ret) -> tuple[bool, str]:
             return False, f"{key}: {norm_text(val)}"
         count = topo.methods.get(f"{kind}_count")
         first = sorted(count.returns(), key=lambda r: r.lineno)[0] if count is not None and count.returns() else None
-        if first is None or norm_text(ctx.flow(count).resolve(first.value)) != f"self.dataset.sizes[self.{kind}_dimension]":
+        from .common import spell_out as _spell01
+        if first is None or norm_text(_spell01(count, ctx.flow(count).resolve(first.value))) != f"self.dataset.sizes[self.{kind}_dimension]":
             return False, f"{kind}_count is not the size of {kind}_dimension"
         if key not in dmap:
             return False, f"grid_dimensions has no entry {key}"
